@@ -187,6 +187,29 @@ def worker(cases):
         back_model = R.model_result(a["back"]) if "__error__" not in a else ("driver-error", a["__error__"])
         if back_model is None or not R.same_outcome(back_text, back_model):
             out["ties"].append({"what": "parse_row: model and real code differ", "cells": cells_real[1], "real": back_text, "model": back_model, **replay})
+        # the same VALUE held by instances with other construction histories (filled in place after construction,
+        # assigned field by field, deep-copied, validated from a plain dict): the cells are a function of the value
+        for hname, build in R.HISTORIES:
+            try:
+                inst_h = build(t, v)
+                if R.canon_plain(t, R.plain_of_instance(t, inst_h)) != want:
+                    count(f"history.{hname}.other-value")      # this history does not reach the value (coercions)
+                    continue
+            except Exception:  # noqa: BLE001
+                count(f"history.{hname}.not-buildable")
+                continue
+            count(f"history.{hname}")
+            cells_h, _ = R.real_unparse(cls, inst_h, targets)
+            if cells_h == cells_real:
+                continue
+            back_h = R.real_parse(cls, t, dict((k, x) for k, x in cells_h[1])) if cells_h[0] == "ok" else cells_h
+            if dom and back_h != ("ok", want) and len(out["viol"]) < 60:
+                out["viol"].append({"what": f"parse_row(unparse_row(m, layout)) != m for an instance m that was {hname} (the constructor-built "
+                                            "instance of the same value survives)", "history": hname, "cells": cells_h[1] if cells_h[0] == "ok" else cells_h,
+                                    "cells_of_constructed_twin": cells_real[1], "got": back_h, "expected": want, **replay})
+            elif len(out["ties"]) < 60:
+                out["ties"].append({"what": f"unparse_row: two instances holding the same value give different cells ({hname} vs constructed)",
+                                    "history": hname, "real_constructed": cells_real, "real_history": cells_h, **replay})
         packed = sum(1 for _, _, p in R.walk_layout(t, targets) if p)
         count("layout.packed-some" if packed else "layout.all-spread")
         if dom:
